@@ -90,6 +90,12 @@ def solve_cases(rng, tier, stats):
             prec = [None, "c", "r"][(c // 8) % 3]
             extra = {"local_iterations": 10, "resets": 8}
             fam = "/gmres-restart"
+        if c % 8 == 7:
+            # slow-local-solve family: very short GMRES cycles without restart and without preconditioner — local solves that end above their
+            # tolerance with a modest reduction must still be accepted by both backends
+            d, N, kind, eps, max_full, prec = 3, [16, 16, 16], "laplace0", 1e-6, 0, None
+            extra = {"local_iterations": 3, "resets": 1}
+            fam = "/gmres-short"
         label = "amen_solve/%s/d%d/prec-%s/maxfull%d%s%s" % (kind, d, prec, max_full, "/guess" if guess else "", fam)
         box = {}
 
